@@ -96,7 +96,8 @@ pub struct Cand {
     /// dep groups: 5 the lock's code comes through a dep group instead of a direct dep, 6 an extra dep
     /// group one of whose members is an ordinary cell (valid while that cell is unspent), 7 a cell
     /// without out-point-vector data used as a dep group, 8 a dep group nobody created, 9 the lock's
-    /// code is neither a direct dep nor in the dep group given
+    /// code is neither a direct dep nor in the dep group given, 10 the dep-group cell listed first as a
+    /// plain cell dep and then as the dep group that carries the lock's code
     #[serde(default)]
     pub dep: u8,
     /// header dep: 0 none, 1 a main-chain header, 2 a header of a delivered block off the main chain, 3 unknown
@@ -834,7 +835,7 @@ pub fn gen_cand(r: &mut Rng, ntx: usize) -> Cand {
         6 => c.dup = true,
         7 | 8 => c.input = CandIn::CellbaseAt(r.below(2) as u8),
         9 => c.cap = r.range(1, 4) as u8,
-        10 => c.dep = r.range(1, 9) as u8,
+        10 => c.dep = r.range(1, 10) as u8,
         11 => c.hdep = r.range(1, 3) as u8,
         12 => {
             c.input = CandIn::WLock(r.idx(8));
@@ -2210,6 +2211,8 @@ impl PoolExec {
         let mut tb = TransactionBuilder::default();
         tb = match cand.dep {
             5 => tb.cell_dep(group_dep(&dgs[0])),
+            // the dep-group cell listed twice: first as a plain cell dep, then as the group that carries the code
+            10 => tb.cell_dep(packed::CellDep::new_builder().out_point(dgs[0].clone()).build()).cell_dep(group_dep(&dgs[0])),
             9 => tb.cell_dep(group_dep(&dgs[2])),
             _ => tb.cell_dep(self.w.code_dep.clone()),
         };
@@ -2503,7 +2506,7 @@ impl PoolExec {
         let got = self.run_value(self.pool.test_accept_tx(tx.clone()));
         self.ev(&format!("probe_pool {:?} want={:?} got={:?}", cand, want, got.as_ref().map(|c| c.cycles).map_err(|e| e.to_string())));
         self.res.probes.inc(if want.is_ok() { "c04_pool_probe_valid" } else { "c04_pool_probe_invalid" });
-        if want.is_ok() && (cand.dep == 5 || cand.dep == 6) {
+        if want.is_ok() && (cand.dep == 5 || cand.dep == 6 || cand.dep == 10) {
             self.res.probes.inc("c04_pool_probe_valid_through_dep_group");
         }
         if want.is_ok() && self.w.cfg.max_block_cycles < 1_000_000 && self.w.tx_cycles(&tx, &live.iter().map(|(k, v)| (k.clone(), v.cell.clone())).collect()) == Some(self.w.cfg.max_block_cycles) {
@@ -2625,7 +2628,7 @@ impl PoolExec {
         let got = self.deliver(&v);
         self.ev(&format!("probe_block {:?} want={:?} got={:?}", cand, want, got));
         self.res.probes.inc(if want.is_ok() { "c04_block_probe_valid" } else { "c04_block_probe_invalid" });
-        if want.is_ok() && (cand.dep == 5 || cand.dep == 6) {
+        if want.is_ok() && (cand.dep == 5 || cand.dep == 6 || cand.dep == 10) {
             self.res.probes.inc("c04_block_probe_valid_through_dep_group");
         }
         if want.is_ok() && self.w.cfg.max_block_cycles < 1_000_000 && self.w.tx_cycles(&tx, &live.iter().map(|(k, v)| (k.clone(), v.cell.clone())).collect()) == Some(self.w.cfg.max_block_cycles) {
@@ -2781,6 +2784,11 @@ impl PoolExec {
                 // and index, transaction locations) is not the one the chain's history implies:
                 // verdicts that read it depend on how the node arrived here
                 self.viol("C04", &format!("chain_context_differs_from_replay:{class}"), detail);
+            } else if self.sc.prop == "C14" {
+                // cache twins: what the node recorded (fees, cycles, cells) is not what a replay of its own
+                // main chain gives — "every recorded fee and cycle count ... identical to that of a node
+                // running with all caches empty" (the cold twin agrees with the replay)
+                self.viol("C14", &format!("recorded_state_differs_from_replay:{class}"), detail);
             } else {
                 self.res.harness_error = Some(format!("chain state diverged from model in pool mode: {class} {detail}"));
             }
